@@ -2,6 +2,7 @@ import Driver.Pure
 import Driver.Store
 import Driver.Smtp
 import Driver.Pop3
+import Driver.San
 open Driver
 
 /-
@@ -14,5 +15,6 @@ def main (args : List String) : IO UInt32 := do
   | ["store"] => runLoop Driver.StoreMode.step Driver.StoreMode.init
   | ["smtp"] => runLoop Driver.SmtpMode.step ()
   | ["pop3"] => Driver.Pop3.main
+  | ["san"] => runLoop (fun (_ : Unit) toks => ((), (sanHandler toks).getD "bad-op")) ()
   | _ => IO.eprintln s!"unknown mode {args}"; return 2
   return 0
